@@ -64,6 +64,10 @@ CRAFTED = [
     "C1CCCCC1=O>>C1CCCCC1O", "CC=O>>CCO", "CCN.CC(=O)Cl>>CCNC(C)=O", "N#Cc1ccccc1>>NCc1ccccc1",
     "CS(=O)(=O)Cl.OCC>>CCOS(C)(=O)=O", "CC(=O)OC(C)=O.OCC>>CCOC(C)=O", "BrCCBr>>C=C", "CCI>>CC",
     "C[Si](C)(C)Cl.OCC>>CCO[Si](C)(C)C",
+    # spellings that contain the substrings the pipeline uses as markers ('[H]', '.[H]', '.[O]', '.OO', '[Na]' ...)
+    "[H]C(=O)c1ccccc1>>OCc1ccccc1", "C#CC=O.[H][H].[H][H]>>CCCO", "[H]C([H])([H])C(=O)C>>CC(O)C", "CC(=O)C.[H][H]>>CC(O)C",
+    "[H]OC([H])([H])C>>CC=O", "CCO.OO>>CC(=O)O", "OO.CC=O>>CC(=O)O", "CC(=O)C.[Na+].[BH4-]>>CC(O)C", "[2H]C(=O)c1ccccc1>>OCc1ccccc1",
+    "C=CC.[H][H]>>CCC.[H][H]", "CC=O.[H][H].O>>CCO", "[H][H].CC#N>>CCN", "CC(O)C.[O-][Cl+3]([O-])([O-])[O-]>>CC(=O)C",
     # validation-set row whose solved result is overwritten by a permanganate template (C01 known finding)
     "C(CC(C=1C=C2C(N(C)C(=N2)CO)=CC=1OC)=O)C.O>>O=C(O)C=1N(C)C=2C(=CC(=C(OC)C=2)C(CCC)=O)N=1",
 ]
